@@ -51,6 +51,9 @@ def run_shard(spec, emit):
     from vf import eng, inputs
     rng = random.Random(f"C20-{spec['seed']}-{spec['shard']}")
     bud = eng.Budget(spec.get("budget_s", 100 if spec["tier"] == "quick" else 2400))
+    for i, case in enumerate(inputs.cell_sweep()):          # deterministic: every catalogued cell once
+        if i % spec["nshards"] == spec["shard"]:
+            run_case(case, emit)
     for _ in range(spec["n"]):
         if not bud.ok():
             emit({"v": "inc", "why": "cut by wall-clock budget"})
